@@ -43,6 +43,23 @@ def op_templates():
             sb = (2, 3) if tb else (3, 2)
             reg("gemm_%d%d" % (ta, tb), [sa, sb], lambda g, x, st, ta=ta, tb=tb: g.gemm(x[0], x[1], ta, tb))
     reg("gemm_batch1", [(1, 2, 3), (2, 2, 3)], lambda g, x, st: g.gemm(x[0], x[1], False, True))
+    reg("stack_scalars", [(), ()], lambda g, x, st: g.stack([x[0], x[1]], [2]))
+    reg("stack_scalars_2d", [(), ()], lambda g, x, st: g.stack([x[0], x[1], x[1], x[0]], [2, 2]))
+    reg("get_full", [(2, 3)], lambda g, x, st: g.get(x[0], [1, 2]))
+    reg("slice_all_single", [(2, 3)], lambda g, x, st: g.get_slice(x[0], [-1, 0]))
+    reg("slice_step_big", [(5,)], lambda g, x, st: g.get_slice(x[0], [(-1, None, -3)]))
+    reg("slice_neg_start", [(5, 2)], lambda g, x, st: g.get_slice(x[0], [(-4, -1, 2), "..."]))
+    reg("matmul_11", [(3,), (3,)], lambda g, x, st: g.matmul(x[0], x[1]))
+    reg("matmul_13", [(2,), (3, 2, 2)], lambda g, x, st: g.matmul(x[0], x[1]))
+    reg("matmul_31", [(3, 2, 2), (2,)], lambda g, x, st: g.matmul(x[0], x[1]))
+    reg("gemm_batch1_b", [(2, 2, 3), (1, 2, 3)], lambda g, x, st: g.gemm(x[0], x[1], False, True))
+    reg("gemm_rank3_tt", [(2, 3, 2), (2, 2, 3)], lambda g, x, st: g.gemm(x[0], x[1], True, True))
+    reg("sum_all3", [(2, 1, 3)], lambda g, x, st: g.sum(x[0], [0, 1, 2]))
+    reg("sum_last", [(2, 3, 2)], lambda g, x, st: g.sum(x[0], [2]))
+    reg("cumsum_last3", [(2, 2, 3)], lambda g, x, st: g.cumsum(x[0], 2))
+    reg("concat_last3", [(2, 1, 2), (2, 1, 1)], lambda g, x, st: g.concat([x[0], x[1]], 2))
+    reg("permute_id", [(2, 3)], lambda g, x, st: g.permute_axes(x[0], [0, 1]))
+    reg("reshape_1", [(1,)], lambda g, x, st: g.reshape(x[0], A((1, 1), st)))
     reg("sum_all", [(2, 3)], lambda g, x, st: g.sum(x[0], [0, 1]))
     reg("sum_mid", [(2, 3, 2)], lambda g, x, st: g.sum(x[0], [1]))
     reg("sum_empty_axes", [(2, 3)], lambda g, x, st: g.sum(x[0], []))
